@@ -93,6 +93,9 @@ package stateless
 //@ func (spt *Tracker) Status
 //@   property C06
 //@   requires tableInv(spt.optracker)
+// "pinned exactly when IPFS holds the EXPECTED pin": the daemon is asked about the pin recorded in the pinset (its mode
+// and depth decide which kind of IPFS pin counts), not about a default pin of the same CID
+//@   at_call rpc.Client.CallContext assert [asks-ipfs-about-the-recorded-pin] svcName == "IPFSConnector" && svcMethod == "PinLsCid" && args == any(gpin) && gpin != nil && *gpin == pinset[c]
 //@   ensures res != nil
 //@   ensures [pending-or-failed-operation] haskey(spt.optracker.operations, c) ==> res.Status == opStatus(spt.optracker.operations[c].opType, spt.optracker.operations[c].phase)
 //@   ensures [unpinned-only-if-absent] !haskey(spt.optracker.operations, c) && res.Status == api.TrackerStatusUnpinned ==> !haskey(pinset, c)
